@@ -502,47 +502,104 @@ def _step(probe, t, before, exc):
             "log": probe.log, "escape": escape, "reads": t.nreads, "writes": t.nwrites, "session_open": bool(t.opened)}
 
 
-def run_case_sync(case):
-    conn, t, dev = build(case)
-    t.open()
+def _second(case):
+    """the commandeering driver B of a `commandeer` case: same stack, its own configured timeouts, its own (unused) transport"""
+    spec = case["commandeer"]
+    c2 = dict(case, driver=spec.get("driver", case["driver"]), base=spec["base"], faults=[], push=False)
+    c2.pop("commandeer", None)
+    conn_b, t_b, _ = build(c2)
+    return conn_b
+
+
+def _targets(case, conn, t):
+    """-> {'A': (conn, probe)[, 'B': (conn_b, probe_b)]}; after B.commandeer(A) both drivers talk through A's transport"""
     probe = Probe(conn, t, bool(case.get("swap_in_try"))).install()
     if case.get("gap") is not None:
         probe.hostile_args(case["gap"])
+    return {"A": (conn, probe)}
+
+
+def _reset(probes, t):
+    for _, pr in probes.values():
+        pr.log, pr.depth, pr.in_chan, pr.cb_frames = [], 0, 0, []
+    t.op_reads = 0
+
+
+def _obs_all(targets, who):
+    """the observables of the driver the call is made on, then those of the other driver(s)"""
+    out = tuple(targets[who][1].obs())
+    for k in sorted(targets):
+        if k != who:
+            out += tuple(targets[k][1].obs())
+    return out
+
+
+def _set_step(conn, spec):
+    """the user reconfigures the connection through the public setter"""
+    setattr(conn, spec["attr"], spec["value"])
+
+
+def _finish(step, targets, who, spec):
+    step["after"] = _obs_all(targets, who)
+    if spec.get("op") == "set":
+        step["set"] = [spec["attr"], spec["value"]]
+    step["on"] = who
+    return step
+
+
+def run_case_sync(case):
+    conn, t, dev = build(case)
+    t.open()
+    targets = _targets(case, conn, t)
+    if case.get("commandeer"):
+        conn_b = _second(case)
+        conn_b.commandeer(conn, execute_on_open=False)
+        targets["B"] = (conn_b, Probe(conn_b, t, bool(case.get("swap_in_try"))).install())
     steps = []
     for spec in case["ops"]:
-        probe.log, probe.depth, probe.in_chan, probe.cb_frames = [], 0, 0, []
-        t.op_reads = 0
-        before = probe.obs()
+        who = spec.get("on", "B" if "B" in targets else "A")
+        c, probe = targets[who]
+        _reset(targets, t)
+        before = _obs_all(targets, who)
         exc = None
         try:
-            thunk = _call(conn, spec, probe, False)
-            thunk()
+            if spec["op"] == "set":
+                _set_step(c, spec)
+            else:
+                thunk = _call(c, spec, probe, False)
+                thunk()
         except Exception as e:      # noqa: every outcome is an observation
             exc = e
-        steps.append(_step(probe, t, before, exc))
+        steps.append(_finish(_step(probe, t, before, exc), targets, who, spec))
     return steps
 
 
 async def run_case_async(case):
     conn, t, dev = build(case)
     await t.open()
-    probe = Probe(conn, t, bool(case.get("swap_in_try"))).install()
-    if case.get("gap") is not None:
-        probe.hostile_args(case["gap"])
+    targets = _targets(case, conn, t)
+    if case.get("commandeer"):
+        conn_b = _second(case)
+        await conn_b.commandeer(conn, execute_on_open=False)
+        targets["B"] = (conn_b, Probe(conn_b, t, bool(case.get("swap_in_try"))).install())
     steps = []
     for spec in case["ops"]:
-        probe.log, probe.depth, probe.in_chan, probe.cb_frames = [], 0, 0, []
-        t.op_reads = 0
-        before = probe.obs()
+        who = spec.get("on", "B" if "B" in targets else "A")
+        c, probe = targets[who]
+        _reset(targets, t)
+        before = _obs_all(targets, who)
         exc = None
         try:
-            thunk = _call(conn, spec, probe, True)
-            if spec.get("cancel_after") is not None:
-                await asyncio.wait_for(thunk(), timeout=spec["cancel_after"])
+            if spec["op"] == "set":
+                _set_step(c, spec)
             else:
-                await thunk()
+                thunk = _call(c, spec, probe, True)
+                if spec.get("cancel_after") is not None:
+                    await asyncio.wait_for(thunk(), timeout=spec["cancel_after"])
+                else:
+                    await thunk()
         except (Exception, asyncio.CancelledError) as e:
             exc = e
-        steps.append(_step(probe, t, before, exc))
+        steps.append(_finish(_step(probe, t, before, exc), targets, who, spec))
     t.close()
     return steps
